@@ -200,7 +200,9 @@ class Harness:
             h.iterations += 1
             h.total_iterations += 1
             if h.iterations > h.max_iter:
-                raise HarnessError('iteration cap hit')
+                # the run never ends (e.g. a task resubmitted for ever):
+                # end it as a livelock so that the end-of-run oracles judge it
+                raise SimLivelock(f'{h.max_iter} main-loop iterations')
             CLOCK.sleeps = 0
             h._run_hooks(h.pre_iter_hooks)
             await orig_loop()
